@@ -87,6 +87,26 @@ def _smh(ctx, facts):
             ctx.ok("MARKER", fid, "p[x] = x and q[x] = item_rank under q[x] != item_rank (x = %s)" % nf.nf(idx[0], True), where)
         else:
             ctx.violation("MARKER", fid, "p write", where, "`%s` is not the guarded re-initialisation `if q[x] != item_rank { q[x] = item_rank; p[x] = x }`" % nf.nf(w)[:60])
+    # the marker's initial value must not be a rank an item can carry: q starts strictly below the first item_rank, and item_rank
+    # only grows (COUNTER) — otherwise the first item after new/reinit finds its positions "already initialised"
+    from . import C13
+    from .. import reset as _reset
+    cfn = facts.fn(SMH + "new")
+    cs = _reset.ctor_specs(cfn, "SuperMinHash", C13.auto_aliases(facts, C13.SMH))
+    q0, r0 = cs.get("q"), cs.get("item_rank")
+
+    def _int(sp_, kind):
+        try:
+            return int(sp_.val) if sp_ is not None and sp_.kind == kind and not sp_.overrides else None
+        except (TypeError, ValueError):
+            return None
+    qv, rv = _int(q0, "fill"), _int(r0, "scalar")
+    if qv is not None and rv is not None and qv < rv:
+        ctx.ok("MARKER", SMH + "new", "marker q starts at %d, below the first item rank %d" % (qv, rv), hirq.loc(cfn))
+    else:
+        ctx.violation("MARKER", SMH + "new", "initial marker", hirq.loc(cfn),
+                      "the permutation marker q is initialised as %s and item_rank as %s: the marker must start strictly below the first rank, "
+                      "or the first item sketched finds q[x] == item_rank and never resets p to the identity" % (q0, r0))
     swaps = self_method_calls(fn, "p", ["swap"])
     if len(swaps) == 1:
         ctx.ok("MARKER", fid, "exactly one p.swap per draw", hirq.loc(swaps[0]))
